@@ -45,14 +45,27 @@ func vApplyOp(t KeyValueTree, ref *vRef, key []byte, i int) {
 	vApplyOpKind(t, ref, key, i, -1)
 }
 
-// vApplyOpKind: kind 0 insert, 1 remove, 2 remove-existing; any other value: symbolic choice.
+// vApplyOpKind: kind 0 insert, 1 remove, 2 remove-existing, 3 get (only when fixed by the instance),
+// 4 insert of a value of symbolic length 0..1; any other value: symbolic choice among 0..2.
 func vApplyOpKind(t KeyValueTree, ref *vRef, key []byte, i int, kind int) {
-	if kind < 0 || kind > 2 {
+	if kind < 0 || kind > 4 {
 		kind = symx.Choose(symx.N("op", i), 3)
 	}
 	switch kind {
-	case 0:
+	case 3:
+		got, err := t.Get(vCtx, key)
+		symx.Assert(err == nil, "Get failed")
+		want, present := ref.get(key)
+		if present {
+			symx.Assert(got != nil && bytes.Equal(got, want), "Get returned a value different from the last one written")
+		} else {
+			symx.Assert(got == nil, "Get returned a value for an absent key")
+		}
+	case 0, 4:
 		val := vVal1(symx.N("val", i))
+		if kind == 4 || symx.Cfg("emptyvals", 0) == 1 {
+			val = vVal(symx.N("val", i), 1)
+		}
 		symx.Assert(t.Insert(vCtx, key, val) == nil, "Insert failed")
 		ref.set(key, val)
 	case 1:
